@@ -684,8 +684,9 @@ class Parser:
                 if ident == 'void':
                     return model.void_type, quals
                 if ident == '__dotdotdot__':
-                    raise FFIError(':%d: bad usage of "..."' %
-                            typenode.coord.line)
+                    raise FFIError(':%s: bad usage of "..."' % (
+                            typenode.coord.line if typenode.coord is not None
+                            else '?',))
                 tp0, quals0 = resolve_common_type(self, ident)
                 return tp0, (quals | quals0)
             #
@@ -716,8 +717,8 @@ class Parser:
             return self._get_struct_union_enum_type('union', typenode, name,
                                                     nested=True), 0
         #
-        raise FFIError(":%d: bad or unsupported type declaration" %
-                typenode.coord.line)
+        raise FFIError(":%s: bad or unsupported type declaration" % (
+                typenode.coord.line if typenode.coord is not None else '?',))
 
     def _parse_function_type(self, typenode, funcname=None):
         params = list(getattr(typenode.args, 'params', []))
